@@ -711,7 +711,9 @@ def check_hkdf(ck_ob, mod, label):
         okI = ev[k][3] == (H, INFO, INFOLEN)
         cell = gf2.sym_word(("lfcell", repr(ex.subst(p, cnt0))), 8) if cntc is None else gf2.const_word(cntc, 8)
         # (what is absorbed is the byte's value - from the state field or from a local copy of it - not where it is kept)
-        okC = ev[k + 1][3][0] == H and ev[k + 1][3][2] == "1" and ev[k + 1][4] == (tuple(cell),)
+        # the same value after a trip through a local byte (copied before a test fixed its value: the word keeps the field's name)
+        cell2 = [gf2.sym_word(("lf", repr(x_)), 8) for x_ in (cnt0, ex.subst(p, cnt0)) if x_ is not None and not is_word(x_)]
+        okC = ev[k + 1][3][0] == H and ev[k + 1][3][2] == "1" and ev[k + 1][4] in [(tuple(cell),)] + [(tuple(x_),) for x_ in cell2]
         tgt_ = ev[k + 2][3][3] if len(ev[k + 2][3]) > 3 else None
         direct = prevphi is not None and tgt_ == repr(Lf.s(cur))
         okF = ev[k + 2][3][:3] == (H, ev[0][3][1], "32") and (tgt_ == repr(Lf({ST: 1, 1: OUTF})) or direct) and ev[k + 3][3] == (H,)
